@@ -1371,6 +1371,72 @@ def fold_new_bases(modules, known_funcs, log):
         ast.fix_missing_locations(mi.tree)
 
 
+def singledispatch_chains(modules, log):
+    """functools.singledispatch / singledispatchmethod families are written as the isinstance chain they implement:
+       registrations first (a registered class is more specific than the `object` default), the generic body last."""
+    for mi in modules.values():
+        for holder in [mi.tree] + [c for c in mi.tree.body if isinstance(c, ast.ClassDef)]:
+            gens = {}
+            for st in holder.body:
+                if isinstance(st, ast.FunctionDef) and any(ast.unparse(d).split(".")[-1] in ("singledispatch", "singledispatchmethod") for d in st.decorator_list):
+                    gens[st.name] = (st, [])
+            if not gens:
+                continue
+            for st in holder.body:
+                if not isinstance(st, ast.FunctionDef):
+                    continue
+                for d in st.decorator_list:
+                    t = ast.unparse(d)
+                    for gname in gens:
+                        if t == f"{gname}.register" or t.startswith(f"{gname}.register("):
+                            gens[gname][1].append((st, d))
+            for gname, (gen, regs) in gens.items():
+                method = any(ast.unparse(d).split(".")[-1] == "singledispatchmethod" for d in gen.decorator_list)
+                k = 1 if method else 0
+                if len(gen.args.args) <= k:
+                    continue
+                x = gen.args.args[k].arg
+                branches = []
+                ok = True
+                for fn, d in regs:
+                    if len(fn.args.args) <= k:
+                        ok = False
+                        break
+                    p0 = fn.args.args[k]
+                    ty = d.args[0] if isinstance(d, ast.Call) and d.args else p0.annotation
+                    if ty is None:
+                        ok = False
+                        break
+                    ren = {a.arg: g.arg for a, g in zip(fn.args.args, gen.args.args) if a.arg != g.arg}
+                    body = [ast.parse(ast.unparse(b)).body[0] for b in fn.body if not (isinstance(b, ast.Expr) and isinstance(b.value, ast.Constant))]
+                    if ren:
+                        for b in body:
+                            for y in ast.walk(b):
+                                if isinstance(y, ast.Name) and y.id in ren:
+                                    y.id = ren[y.id]
+                    for b, src_b in zip(body, [b for b in fn.body if not (isinstance(b, ast.Expr) and isinstance(b.value, ast.Constant))]):
+                        ast.copy_location(b, src_b)
+                        for y in ast.walk(b):
+                            if not hasattr(y, "lineno"):
+                                ast.copy_location(y, src_b)
+                    branches.append((ty, body))
+                if not ok or not branches:
+                    continue
+                default = [b for b in gen.body if not (isinstance(b, ast.Expr) and isinstance(b.value, ast.Constant))]
+                node = None
+                for ty, body in reversed(branches):
+                    test = ast.Call(func=ast.Name(id="isinstance", ctx=ast.Load()), args=[ast.Name(id=x, ctx=ast.Load()), ty], keywords=[])
+                    node = ast.If(test=test, body=body, orelse=[node] if node is not None else default)
+                ast.copy_location(node, gen)
+                ast.fix_missing_locations(node)
+                gen.body = [node]
+                gen.decorator_list = [d for d in gen.decorator_list if ast.unparse(d).split(".")[-1] not in ("singledispatch", "singledispatchmethod")]
+                drop = {id(fn) for fn, _ in regs}
+                holder.body = [st for st in holder.body if id(st) not in drop]
+                log.append(f"singledispatch family {mi.name}.{gname} written as an isinstance chain ({len(branches)} registrations)")
+        ast.fix_missing_locations(mi.tree)
+
+
 def recover_moved_methods(modules, known_funcs, log):
     """A known method Cls.m that is gone, while its module now has an unknown module-level function m with the method's
     parameters minus `self` (the method never used self and was moved out of the class): the function is put back as
@@ -2018,6 +2084,7 @@ def run(modules, known_funcs):
     log = []
     merge_new_modules(modules, known_funcs, log)
     fold_new_bases(modules, known_funcs, log)
+    singledispatch_chains(modules, log)
     recover_renames(modules, known_funcs, log)
     drop_local_annotations(modules, log)
     expand_descriptors(modules, log)
